@@ -69,10 +69,14 @@ def ref_agg(fname, vals):
         return str(max(nums) if nums else 0)
     if n == 0:
         return '0' if fname == 'Avg' else ''
-    mean = fractions.Fraction(sum(nums), n)
+    # the statistics are those of the values that are there: an entry without one (an unreadable file has no line_count) is no zero
+    k = len(nums)
+    if k == 0:
+        return 0.0
+    mean = fractions.Fraction(sum(nums), k)
     if fname == 'Avg':
         return float(mean)
-    d = n if fname in ('VarPop', 'StdDevPop') else (1 if n == 1 else n - 1)
+    d = k if fname in ('VarPop', 'StdDevPop') else (1 if k <= 1 else k - 1)
     var = sum((mean - x) ** 2 for x in nums) / d
     return math.sqrt(var) if fname.startswith('StdDev') else float(var)
 
@@ -279,6 +283,69 @@ def fam_float(sess):
             sess.discharged('%s %s: 1..%d rows' % (fam, fname, N), family=fam, queries=box.get('paths', 1))
 
 
+def fam_absent(sess):
+    """AVG / VAR / STDDEV when some entries have no value for the column (an unreadable file has no line_count; C17: aggregates over
+    readable data are unaffected): the real get_aggregate_value over 2..3 rows each of which is a symbolic value or absent, compared
+    with the mean / variance of the values that are present (concrete witnesses through the native function)"""
+    prog = sess.prog
+    fam = 'absent'
+    N = 3
+    sess.bounds[fam] = {'rows': '2..%d' % N, 'row kinds': 'decimal value < 256 | key absent', 'functions': 'AVG VAR_POP VAR_SAMP STDDEV_POP STDDEV_SAMP'}
+    F64 = z3.Float64(); RNE = z3.RNE()
+    tofp = lambda bv: z3.fpToFPUnsigned(RNE, bv, F64)
+    for fname in ('Avg', 'VarPop', 'VarSamp', 'StdDevPop', 'StdDevSamp'):
+        box = {}
+        ex = sess.executor(unwind=N + 3, solver_timeout_ms=20000)
+        for n in range(2, N + 1):
+            def run(ctx, n=n, fname=fname):
+                rows, info = mk_rows(ctx, n, kinds=('num', 'absent'), bound=256)
+                return info, call_agg(ctx, prog, fname, rows)
+
+            def on_path(ctx, out, n=n, fname=fname):
+                name = '%s %s over %d rows' % (fam, fname, n)
+                if out[0] != 'ret':
+                    if out[0] == 'panic' and not box.get('viol'):
+                        box['viol'] = True
+                        sess.violated(name, 'agg/%s/absent/panic' % fname, out[1], {}, replay_battery(fname), fam)
+                    elif out[0] != 'panic':
+                        box['bad'] = True; sess.inconclusive(name, str(out), fam)
+                    return
+                info, r = out[1]
+                box['paths'] = box.get('paths', 0) + 1
+                vs = [v for k_, v in info if k_ == 'num']
+                if len(vs) == len(info) or not vs:
+                    return              # all present: family avg/var; none present: not specified
+                # a concrete witness decides (the symbolic float comparison is the matter of avg/var): small distinct values
+                m = ctx.model(*[v == BitVecVal(3 + 4 * i, 64) for i, v in enumerate(vs)])
+                if m is None:
+                    box['bad'] = True; sess.inconclusive(name, 'no witness', fam); return
+                vals = model_rows(m, info)
+                want = ref_agg(fname, vals)
+                if isinstance(r, FloatStr):
+                    got = z3.simplify(m.eval(r.fp, model_completion=True))
+                    gotv = None
+                    if z3.is_fp_value(got) and not got.isNaN() and not got.isInf():
+                        q = z3.simplify(z3.fpToReal(got))
+                        gotv = q.numerator_as_long() / q.denominator_as_long()
+                elif isinstance(r, Str) and r.s is not None:
+                    try:
+                        gotv = float(r.s)
+                    except ValueError:
+                        gotv = None
+                else:
+                    gotv = None
+                if gotv is not None and close(gotv, want):
+                    return
+                if box.get('viol'):
+                    return
+                box['viol'] = True
+                sess.violated(name, 'agg/%s/absent' % fname, 'rows %r: %s = %r, over the values that are present it is %r' % (vals, SQL[fname], gotv, want),
+                              {'function': fname, 'rows': vals}, replay_concrete(fname, vals), fam)
+            ex.explore(run, on_path)
+        if not box.get('viol') and not box.get('bad'):
+            sess.discharged('%s %s: 2..%d rows, some of them without a value: the statistics of the values present' % (fam, fname, N), family=fam, queries=box.get('paths', 1))
+
+
 def fam_wiring(sess):
     """MAX(<arg>) evaluated for one entry: the argument's value must land in the row map under the key the aggregate reads"""
     prog = sess.prog
@@ -361,6 +428,6 @@ def main(sess):
         'that the rows are exactly the entries matching WHERE is the walker/evaluator (C01, C02); GROUP BY is C08',
     ]
     only = getattr(sess, 'only', None)
-    for name, f in (('exact', fam_exact), ('float', fam_float), ('wiring', fam_wiring), ('e2e', fam_e2e)):
+    for name, f in (('exact', fam_exact), ('float', fam_float), ('absent', fam_absent), ('wiring', fam_wiring), ('e2e', fam_e2e)):
         if not only or name in only:
             f(sess)
